@@ -88,7 +88,7 @@ func (a *Analyzer) onCommit(n *nodeState, r *ev.Rec) {
 // inside their durable frontier (C06).
 func (a *Analyzer) checkDurability(n *nodeState, r *ev.Rec) {
 	cfg := n.latest
-	if cfg == nil {
+	if cfg == nil || a.isWire(n.key.nid) {
 		return
 	}
 	e, ok := n.log[r.Idx]
